@@ -525,7 +525,15 @@ func (i *importer) importMessage(dbcMsg *dbc.Message) error {
 	slices.SortFunc(dbcMsg.Signals, func(a, b *dbc.Signal) int { return int(a.StartBit) - int(b.StartBit) })
 
 	var currByteOrder dbc.SignalByteOrder
+	sigNames := make(map[string]bool)
 	for idx, dbcSig := range dbcMsg.Signals {
+		// the names are unique within the message (a second signal named as a
+		// multiplexor would otherwise be skipped together with it)
+		if sigNames[dbcSig.Name] {
+			return i.errorf(dbcSig, &NameError{Name: dbcSig.Name, Err: ErrIsDuplicated})
+		}
+		sigNames[dbcSig.Name] = true
+
 		// every signal lies inside the payload: checked before the sizes of the
 		// multiplexer groups are derived from the positions
 		if i.getSignalStartBit(dbcSig)+int(dbcSig.Size) > int(dbcMsg.Size)*8 {
@@ -749,6 +757,12 @@ func (i *importer) importMuxSignal(dbcMuxSig *dbc.Signal, dbcMsgID uint32, muxed
 
 	muxSigStartBit := i.getSignalStartBit(dbcMuxSig)
 	muxSigSize := int(dbcMuxSig.Size)
+
+	// a multiplexor without bits selects nothing: the multiplexed signals would be
+	// placed one bit behind the position stated by the file
+	if muxSigSize == 0 {
+		return nil, i.errorf(dbcMuxSig, &SignalSizeError{Size: muxSigSize, Err: ErrIsZero})
+	}
 
 	if muxedEndBit > 0 {
 		groupSize = muxedEndBit - muxSigStartBit - muxSigSize
